@@ -33,6 +33,8 @@ pub(super) async fn call_deploy_apply_tool(
 
         let binding = super::ConfirmTokenBinding::from(&args.common);
         let now = Instant::now();
+        #[cfg(agentpack_verif)]
+        let now = crate::verif_hooks::skew(now);
         let stored_plan_hash = {
             let mut store = server
                 .confirm_tokens
